@@ -2,7 +2,7 @@ package props
 
 // C18 - only root-controlled executables are ever run.
 //
-// Exhaustive over owner {0,1000} x group {0,1000} x 512 modes x {direct path, symlink}: a fresh
+// Exhaustive over owner {0,1000,54321 (no passwd entry)} x group {0,1000,54321} x 512 modes x {direct path, symlink}: a fresh
 // /bin/sh script that appends to a marker file is offered to util.SafeCmdExecution, then its
 // attributes are changed and it is offered again. Reference predicate on the resolved file:
 //   allowed <=> uid == 0 && !(gid != 0 && mode&0o020 != 0) && mode&0o002 == 0
@@ -130,6 +130,61 @@ func c18Run(dir string, p c18Point) (vs []sim.Violation, flips bool) {
 	return vs, c18Allowed(p.Uid, p.Gid, p.Mode) != c18Allowed(p.Uid2, p.Gid2, p.Mode2)
 }
 
+var c18Ids = []int{0, 1000, 54321}
+
+// c18Other flips an owner id to the other side of "is root".
+func c18Other(id int, r uint64) int {
+	if id != 0 {
+		return 0
+	}
+	return c18Ids[1+int(r%2)]
+}
+
+// c18SelfModifying: an allowed script that makes itself unsafe while it runs (and fails, or not). Every
+// execution logs the owner / group / mode it found itself in; none may start in a forbidden state,
+// whatever fan2go does after the first run (retries, fallbacks), and a later call must be refused.
+func c18SelfModifying(dir, change string, exit int, via string, symlink bool) (vs []sim.Violation) {
+	script := filepath.Join(dir, "selfmod.sh")
+	link := filepath.Join(dir, "selfmod-link.sh")
+	marker := filepath.Join(dir, "selfmod.marker")
+	os.Remove(script)
+	os.Remove(link)
+	os.Remove(marker)
+	body := "#!/bin/sh\nstat -L -c '%u %g %a' \"$0\" >> " + marker + "\n" + change + "\necho 42\nexit " + fmt.Sprint(exit) + "\n"
+	if err := os.WriteFile(script, []byte(body), 0o755); err != nil {
+		return []sim.Violation{{Key: "harness", Msg: err.Error()}}
+	}
+	_ = os.Chown(script, 0, 0)
+	_ = os.Chmod(script, 0o755)
+	path := script
+	if symlink {
+		_ = os.Symlink(script, link)
+		path = link
+	}
+	desc := fmt.Sprintf("self-modifying script (%s, exit %d) via %s symlink %v", change, exit, via, symlink)
+	for call := 1; call <= 2; call++ {
+		_, err, pan := c18Call(via, path)
+		b, _ := os.ReadFile(marker)
+		lines := strings.Fields(strings.ReplaceAll(strings.TrimSpace(string(b)), " ", ":"))
+		for i, l := range lines {
+			var uid, gid, mode int
+			if _, e := fmt.Sscanf(l, "%d:%d:%o", &uid, &gid, &mode); e != nil {
+				return append(vs, sim.Violation{Key: "harness", Msg: "marker line " + l})
+			}
+			if !c18Allowed(uid, gid, mode) {
+				return append(vs, sim.Violation{Key: "forbidden-file-executed", Msg: fmt.Sprintf("%s: execution %d (call %d) started while the file was uid %d gid %d mode %04o", desc, i+1, call, uid, gid, mode)})
+			}
+		}
+		if call == 1 && len(lines) == 0 {
+			return append(vs, sim.Violation{Key: "allowed-file-not-executed", Msg: desc + ": first call did not run the script"})
+		}
+		if call == 2 && err == nil && pan == "" {
+			vs = append(vs, sim.Violation{Key: "forbidden-file-no-error", Msg: desc + ": second call (file now unsafe) returned no error"})
+		}
+	}
+	return vs
+}
+
 func lcg(x uint64) uint64 { return x*6364136223846793005 + 1442695040888963407 }
 
 func TestC18(t *testing.T) {
@@ -162,8 +217,9 @@ func TestC18(t *testing.T) {
 	seed := uint64(envInt("VERIF_SEED", 1))
 	idx := 0
 	flipsN := 0
-	for _, uid := range []int{0, 1000} {
-		for _, gid := range []int{0, 1000} {
+	// owners: root, an ordinary account, and an id without any passwd / group entry
+	for _, uid := range c18Ids {
+		for _, gid := range c18Ids {
 			for mode := 0; mode < 0o1000; mode++ {
 				for _, sym := range []bool{false, true} {
 					idx++
@@ -176,15 +232,15 @@ func TestC18(t *testing.T) {
 					p.Uid2, p.Gid2, p.Mode2 = uid, gid, mode
 					switch (x >> 33) % 5 {
 					case 0:
-						p.Uid2 = 1000 - uid
+						p.Uid2 = c18Other(uid, x>>45)
 					case 1:
-						p.Gid2 = 1000 - gid
+						p.Gid2 = c18Other(gid, x>>45)
 					case 2:
 						p.Mode2 = mode ^ 0o002
 					case 3:
 						p.Mode2 = mode ^ 0o020
 					default:
-						p.Uid2, p.Gid2, p.Mode2 = int(x>>40)%2*1000, int(x>>41)%2*1000, int(x>>42)%0o1000
+						p.Uid2, p.Gid2, p.Mode2 = c18Ids[int(x>>40)%3], c18Ids[int(x>>43)%3], int(x>>46)%0o1000
 					}
 					if (x>>50)%16 == 0 {
 						p.Via = "sensor"
@@ -205,6 +261,22 @@ func TestC18(t *testing.T) {
 		}
 	}
 	st.Add("verdict_changes_between_calls", int64(flipsN))
+	if shard == 0 {
+		for _, change := range []string{`chmod o+w "$0"`, `chgrp 1000 "$0"; chmod g+w "$0"`, `chown 1000 "$0"`, `chown 54321 "$0"`} {
+			for _, exit := range []int{0, 1} {
+				for _, via := range []string{"exec", "sensor", "fan"} {
+					for _, sym := range []bool{false, true} {
+						vs := c18SelfModifying(dir, change, exit, via, sym)
+						st.CaseH(fmt.Sprintf("selfmod-%s-%d-%s-%v", change, exit, via, sym), map[string]any{"change": change, "exit": exit, "via": via, "symlink": sym}, true, "self-modifying")
+						if fail := st.Judge(vs); len(fail) > 0 {
+							st.SaveReplay("TestC18", c18Point{Via: "selfmod:" + change, Mode: exit, Symlink: sym}, fail)
+							t.Fatalf("C18: %v", fail)
+						}
+					}
+				}
+			}
+		}
+	}
 	// the configuration file: the same predicate whenever a cmd sensor or fan is declared
 	cfgPath := filepath.Join(dir, "fan2go.yaml")
 	_ = os.WriteFile(cfgPath, []byte("# c18\n"), 0o600)
@@ -235,8 +307,8 @@ func TestC18(t *testing.T) {
 		configuration.CurrentConfig = c
 	}
 	n := 0
-	for _, uid := range []int{0, 1000} {
-		for _, gid := range []int{0, 1000} {
+	for _, uid := range c18Ids {
+		for _, gid := range c18Ids {
 			for mode := 0; mode < 0o1000; mode++ {
 				n++
 				if n%shards != shard {
